@@ -81,7 +81,7 @@ ASSUMPTIONS = [
     "reported response' is taken as sum_l h_l exp(-2 pi i k l / fft) over ALL "
     "taps (aliasing), the behaviour of get_freq_response since commit "
     "7f16ddc (before it np.fft.fft truncated; C02 defect #2)",
-    "tap delays >= 0, tap powers in [-40, 0] dB, path loss in (0, 1], "
+    "tap delays >= 0, tap powers in [-120, 0] dB, path loss in (0, 1], "
     "selections pick at least one carrier with indexes in [0, fft_size)",
     "delays closer than 1e-9 (relative) to a rounding tie k+0.5 are excluded "
     "from the comparison of discretised indexes/powers and counted "
@@ -159,8 +159,11 @@ def _profile(draw, tier, p_cost=0.12):
     cls, u = draw(_u_lists(tier))
     if draw(st.booleans()) and cls not in ("tie",):
         u = sorted(u)
+    # (also very weak taps: 60 .. 120 dB below the strongest one)
     p = draw(st.lists(st.one_of(fl(-30.0, 0.0), fl(-30.0, 0.0),
-                                st.sampled_from([0.0, -3.0, -40.0])),
+                                st.sampled_from([0.0, -3.0, -40.0]),
+                                fl(-120.0, -60.0),
+                                st.sampled_from([-60.0, -80.0, -100.0])),
                       min_size=len(u), max_size=len(u)))
     Ts = draw(st.one_of(loguniform(-8, -2), loguniform(-8, -2),
                         st.sampled_from([1.0, 1e-3, 1e-6, 3.255e-8])))
